@@ -132,6 +132,8 @@ func c07Gen(t *rapid.T) C07Case {
 				rec.Labels[l.Name] = rapid.SampledFrom(append(append([]string{}, l.Pool...), "MiXed Case", " padded ")).Draw(t, "labelval")
 			}
 		}
+		// A label holding a unix timestamp in most records and something else in the others.
+		rec.Labels["ts"] = rapid.SampledFrom([]string{"1700000001", "1700000002", "oops", "17", "1700000003"}).Draw(t, "tsval")
 		line := rapid.SampledFrom([]string{"GET /a 200", "", "some words here", "  spaced  ", "{{not a template}}", "percent %s %d"}).Draw(t, "line")
 		if kind == "decolorize" {
 			// A coloured line assembled from plain chunks and SGR sequences.
@@ -247,6 +249,9 @@ func genTmplT(t *rapid.T, names []string, forbidden map[string]bool) []gen.TmplP
 	}
 	if rapid.IntRange(0, 6).Draw(t, "tmpl-fail") == 0 {
 		parts = append(parts, gen.TmplPart{Kind: rapid.SampledFrom([]string{"fail_unixToTime", "fail_regex"}).Draw(t, "tmpl-failkind"), A: "nosuchlabel"})
+	}
+	if !forbidden["ts"] && rapid.IntRange(0, 3).Draw(t, "tmpl-maybe-fail") == 0 {
+		parts = append(parts, gen.TmplPart{Kind: "unix_of_label", A: "ts"})
 	}
 	return parts
 }
